@@ -29,7 +29,8 @@ mode does not (`C06_forced_end_tag`) — is harmless only for controllers that p
 ask for through unchanged (true of `HtmlRewriteController`, not expressible for an abstract `Controller`).
 
 The exceptions of the full claim, as model runs: `C06_F27_witness` (strict mode), `C06_memory_witness`
-(the limit is mode-dependent).
+(the limit is mode-dependent), `C06_hint_error_witness` (a failing `handle_start_tag` is reported at another
+call, or not at all). Corrected target: `C06_independence_statement3`.
 
 NOT proved — the parser-level induction that feeds these events (section "what is left" at the end;
 target: `C06_independence_statement2`).
@@ -144,6 +145,27 @@ theorem C06_memory_witness :
       [.err .mem, .panicUseAfterError] := by
   decide +kernel
 
+/-- a controller whose `handle_start_tag` fails -/
+def errCtl : Controller Unit := { constCtl 0 with startTag := fun _ _ _ => ((), .err .handler) }
+
+/-- **an error of `handle_start_tag` is reported at a different call.** The tag scanner calls
+`handle_start_tag` at the end of the tag NAME (the hint), the lexer at the `>` (the tag lexeme). Writes
+`<a ` then `>`: the plain run fails at the first `write`, the observing run at the second; with `<a ` alone
+followed by `end` the plain run fails and the observing run succeeds. (In the Rust `handle_start_tag` can
+fail with `MemoryLimitExceeded` of the selector-matching stack: the same family as F27.) -/
+theorem C06_hint_error_witness :
+    (run ⟨Gen.Syntax.table, Gen.Tags.cfg, errCtl⟩ (Rewriter.new ⟨Gen.Syntax.table, Gen.Tags.cfg, errCtl⟩ () {})
+      [[0x3c, 0x61, 0x20], [0x3e]]).2 = [.err .handler, .panicUseAfterError, .panicUseAfterError] ∧
+    (run (World.withObs ⟨Gen.Syntax.table, Gen.Tags.cfg, errCtl⟩ (Flags.ofNat 1))
+      (Rewriter.new (World.withObs ⟨Gen.Syntax.table, Gen.Tags.cfg, errCtl⟩ (Flags.ofNat 1)) ((), Flags.ofNat 0) {})
+      [[0x3c, 0x61, 0x20], [0x3e]]).2 = [.ok, .err .handler, .panicUseAfterError] ∧
+    (run ⟨Gen.Syntax.table, Gen.Tags.cfg, errCtl⟩ (Rewriter.new ⟨Gen.Syntax.table, Gen.Tags.cfg, errCtl⟩ () {})
+      [[0x3c, 0x61, 0x20]]).2 = [.err .handler, .panicUseAfterError] ∧
+    (run (World.withObs ⟨Gen.Syntax.table, Gen.Tags.cfg, errCtl⟩ (Flags.ofNat 1))
+      (Rewriter.new (World.withObs ⟨Gen.Syntax.table, Gen.Tags.cfg, errCtl⟩ (Flags.ofNat 1)) ((), Flags.ofNat 0) {})
+      [[0x3c, 0x61, 0x20]]).2 = [.ok, .ok] := by
+  decide +kernel
+
 /-! ### statements -/
 
 /-- a token `H` did not ask for is passed through unchanged (what `HtmlRewriteController` does: only the
@@ -165,6 +187,28 @@ def C06_independence_statement2 : Prop :=
     let R := run w (Rewriter.new w g cfg) chunks
     CallRes.err .mem ∉ R'.2 → CallRes.err .mem ∉ R.2 →
       R'.2 = R.2 ∧ ((∀ x ∈ R.2, x = CallRes.ok) → R'.1.stream.disp.ctl.1 = R.1.stream.disp.ctl)
+
+/-- **C06_independence, statement corrected after `C06_hint_error_witness`** (not proved): the call results
+cannot be compared call by call when a call fails (the two modes report `handle_start_tag` errors, the
+simulator's ambiguity errors and memory-limit errors at different calls, or not at all). What remains true
+— and is the claim — is: on runs in which every call of BOTH runs succeeds, `H` ends in the same state
+(same events in the same order), and the sink bytes are equal for observer-only `H`. Controller hypotheses:
+`EmitDiscipline`, and pass-through of unrequested end-tag tokens on an invariant `Ok` of `H`'s states
+(`PassThroughOn`, `Thm/C06_FullCtl.lean`; the real controller: `Ok` = no pending fault). -/
+def C06_independence_statement3 : Prop :=
+  ∀ (γ : Type) (w : World γ) (o : Flags) (g : γ) (cfg : Settings) (chunks : List Bytes) (Ok : γ → Prop),
+    WfTable w.tbl = true → checkCert w.tbl (computeCert w.tbl) = true →
+    (∃ L TT P S, RelexSide w.tbl L TT P S) → CtlClean w.ctl → EmitDiscipline w.ctl →
+    (∀ g n t, Ok (w.ctl.endTag g n).1 → (w.ctl.endTag g n).2.nextEndTag = false →
+      (∃ nm raw src, t = Token.endTag nm raw src) →
+      w.ctl.token (w.ctl.endTag g n).1 t = ((w.ctl.endTag g n).1, { chunks := [t.raw] })) →
+    Ok g → (∀ g n ns, Ok g → Ok (w.ctl.startTag g n ns).1) → (∀ g i, Ok g → Ok (w.ctl.auxInfo g i).1) →
+    (∀ g n, Ok g → Ok (w.ctl.endTag g n).1) → (∀ g t, Ok g → Ok (w.ctl.token g t).1) →
+    o.sticky = true → cfg.strict = false →
+    let R' := run (World.withObs w o) (Rewriter.new (World.withObs w o) (g, w.ctl.initialFlags g) cfg) chunks
+    let R := run w (Rewriter.new w g cfg) chunks
+    (∀ x ∈ R'.2, x = CallRes.ok) → (∀ x ∈ R.2, x = CallRes.ok) →
+      R'.1.stream.disp.ctl.1 = R.1.stream.disp.ctl
 
 /-! ### what is left
 
